@@ -374,6 +374,7 @@ def run_row(job):
     try:
         out = model._outputs
         bad = []
+        no_table = row["gw"] == "none"
         for name in ("water_flux", "water_storage", "crop_growth"):
             tab = getattr(out, name)
             if isinstance(tab, pd.DataFrame):
@@ -386,6 +387,8 @@ def run_row(job):
             if nf.any():
                 for j in np.where(nf.any(axis=0))[0]:
                     col = cols[j]
+                    if name == "water_flux" and col == "z_gw" and no_table:
+                        continue   # exempt: water-table depth column when no table is configured
                     col = "th*" if col.startswith("th") and col[2:].isdigit() else col
                     r0 = int(np.where(nf[:, j])[0][0])
                     bad.append((f"{name}.{col}", r0, float(arr[r0, j]), int(arr[r0, 1]) if name != "water_storage" else -9))
@@ -402,7 +405,7 @@ def run_row(job):
             cols = sorted({b[0] for b in bad})
             first = min(bad, key=lambda b: (b[1], b[0]))
             res["status"] = "fail"
-            res["sig"] = "nonfinite|first=" + first[0]
+            res["sig"] = "nonfinite|" + "+".join(cols[:4]) + ("+..." if len(cols) > 4 else "")
             res["detail"] = (f"non-finite cells in {cols[:8]}{'...' if len(cols) > 8 else ''}; first at row {first[1]} of {first[0]} "
                              f"(value {first[2]})")
         else:
@@ -486,12 +489,15 @@ def run_jobs(pool, jobs, deadline, exceptions):
 
 
 def attribute(results):
-    """per failure signature: one (dim,value) common to all its rows and absent from every completed row"""
-    okrows = [r["row"] for r in results if r["status"] in ("ok",)]
-    ok_has = set()
-    for row in okrows:
+    """per failure signature: the (dim,value) common to all its rows with the highest share of its runs failing that way"""
+    nval = {}
+    nok = {}
+    for r in results:
         for d in DIMNAMES:
-            ok_has.add((d, row[d]))
+            k = (d, r["row"][d])
+            nval[k] = nval.get(k, 0) + 1
+            if r["status"] == "ok":
+                nok[k] = nok.get(k, 0) + 1
     by_sig = {}
     for r in results:
         if r["status"] == "fail":
@@ -502,16 +508,12 @@ def attribute(results):
         for r in rs:
             s = {(d, r["row"][d]) for d in DIMNAMES}
             common = s if common is None else (common & s)
-        cands = [c for c in common if c not in ok_has]
+        cands = sorted(common, key=lambda c: (-(len(rs) / nval[c]), c[1] == DEFAULT_ROW[c[0]], DIMNAMES.index(c[0])))
         if not cands:
             causes[sig] = None
             continue
-        # prefer the candidate whose rows are best explained by this signature; non-default values first
-        def score(c):
-            nrows = sum(1 for r in results if r["row"][c[0]] == c[1])
-            return (c[1] == DEFAULT_ROW[c[0]], -(len(rs) / max(1, nrows)), DIMNAMES.index(c[0]))
-        cands.sort(key=score)
-        causes[sig] = cands[0]
+        c = cands[0]
+        causes[sig] = (c[0], c[1], len(rs), nval[c], nok.get(c, 0))
     return by_sig, causes
 
 
@@ -577,15 +579,18 @@ def main():
                 repl = {}
                 for sig, c in causes.items():
                     if c is not None and c[0] not in NO_REPLACE and c[1] != DEFAULT_ROW[c[0]]:
-                        repl[sig] = c
+                        repl[sig] = (c[0], c[1])
                 for r in out:
                     if r["status"] == "fail" and r["sig"] in repl and r["idx"] >= n_extra:
                         d, v = repl[r["sig"]]
                         nr = dict(r["row"])
                         nr[d] = DEFAULT_ROW[d]
                         todo.append((r["idx"], nr, a.seed, tmo))
-                for sig, c in repl.items():
-                    replaced_log.append(f"pass {npass}: {c[0]}={c[1]} -> {DEFAULT_ROW[c[0]]} for rows failing with {sig[:60]}")
+                if todo:
+                    for sig, c in sorted(repl.items()):
+                        msg = f"{c[0]}={c[1]} -> {DEFAULT_ROW[c[0]]} in rows failing with '{sig[:70]}'"
+                        if msg not in replaced_log:
+                            replaced_log.append(msg)
         lattice = (
             f"BOUNDED (not proved). Pairwise-covering design over {len(DIMS)} dimensions: "
             + "; ".join(f"{d}({len(v)})" for d, v in DIMS)
@@ -617,8 +622,8 @@ def main():
         rs.sort(key=lambda r: sum(1 for d in DIMNAMES[3:] if r["row"][d] != DEFAULT_ROW[d]))
         r0 = rs[0]
         c = causes.get(sig)
-        cause = (f"attributed to {c[0]}={c[1]} (present in all {len(rs)} failing run(s) with this signature, in no completed run)"
-                 if c else "no single option value common to all failing runs and absent from completed runs (combination- or data-dependent)")
+        cause = (f"most specific common value {c[0]}={c[1]}: present in all {c[2]} failing run(s) with this signature; of {c[3]} run(s) with that value "
+                 f"{c[2]} failed this way and {c[4]} completed" if c else "no option value common to all failing runs")
         crops = sorted({r["row"]["crop"] for r in rs})
         failures.append({
             "signature": sig,
